@@ -108,6 +108,7 @@ var sharedOperands = []string{"SI,msg", "BX,fin", "AX,entry", "SI,strend", "CX,r
 
 type progGen struct {
 	nonASCII bool // string literals may contain non-ASCII text (C10 pools only: C19 re-encodes files)
+	names    []string
 	r        *RNG
 	labels   []string
 	equs     []string
@@ -116,17 +117,41 @@ type progGen struct {
 }
 
 func (g *progGen) newName() string {
-	for {
+	for tries := 0; ; tries++ {
 		n := pick(g.r, nameHeads) + pick(g.r, nameTails)
-		if g.r.Chance(1, 3) {
+		if len(g.names) > 0 && tries < 20 && g.r.Chance(1, 4) {
+			// a name related to an existing one: proper suffix, proper prefix, or extension
+			// (prefix/suffix confusion in substitution, tail merging in string tables)
+			base := pick(g.r, g.names)
+			switch g.r.Intn(4) {
+			case 0:
+				if len(base) > 4 {
+					n = base[g.r.Range(1, len(base)-3):]
+				}
+			case 1:
+				if len(base) > 4 {
+					n = base[:g.r.Range(3, len(base)-1)]
+				}
+			case 2:
+				n = pick(g.r, []string{"_asm", "_dbg", "x", "_"}) + base
+			default:
+				n = base + pick(g.r, []string{"2", "_end", "x", "_"})
+			}
+			if c := n[0]; !(c == '_' || (c >= 'a' && c <= 'z') || (c >= 'A' && c <= 'Z')) {
+				continue
+			}
+		} else if g.r.Chance(1, 3) {
 			n += fmt.Sprintf("%d", g.r.Intn(40))
 		}
-		up := strings.ToUpper(n)
-		if g.used[up] || isReserved(up) {
-			continue
+		if true {
+			up := strings.ToUpper(n)
+			if g.used[up] || isReserved(up) {
+				continue
+			}
+			g.used[up] = true
+			g.names = append(g.names, n)
+			return n
 		}
-		g.used[up] = true
-		return n
 	}
 }
 
@@ -632,7 +657,24 @@ func genBody(r *RNG, o genOpts) (body []string, hasEqu, hasGlobal bool) {
 		hasEqu = true
 	}
 	g.equs = equNames
-	for i := 0; i < o.NLabels; i++ {
+	if o.NLabels >= 4 && r.Chance(1, 3) {
+		// a family of long names sharing a stem: the stem itself and 2-3 prefixed variants
+		stem := pick(r, nameHeads) + pick(r, []string{"_inthandler21", "_very_long_symbol_name", "_store_cr0_eflags", "_load_gdtr_idtr"})
+		fam := []string{stem}
+		for _, p := range []string{"_asm", "_dbg", "x", "_"} {
+			if r.Chance(2, 3) {
+				fam = append(fam, p+stem)
+			}
+		}
+		for _, n := range fam {
+			if !g.used[strings.ToUpper(n)] && len(g.labels) < o.NLabels {
+				g.used[strings.ToUpper(n)] = true
+				g.names = append(g.names, n)
+				g.labels = append(g.labels, n)
+			}
+		}
+	}
+	for i := len(g.labels); i < o.NLabels; i++ {
 		if r.Chance(1, 3) {
 			c := pick(r, commonLabels)
 			if !g.used[strings.ToUpper(c)] {
